@@ -5,6 +5,7 @@ import (
 	"strings"
 	"sync"
 
+	"verif/mc"
 	"verif/ref"
 )
 
@@ -140,3 +141,39 @@ func searchClassHash(version byte, set string) ([]byte, string, bool) {
 }
 
 var _ = big.NewInt
+
+// Dual-format strings: hashes whose BARE CashAddr string (in the stated case) is at the same time a
+// valid Base58Check string - every character in the Base58 alphabet and the last four decoded bytes
+// the double-SHA256 prefix of the rest.  About one eligible string in 2^32 is; these were found by
+// tools/dualformat (a few minutes on 16 cores each) and are re-verified here with the reference
+// codecs before use.  A decoder that tries Base58Check before CashAddr sends them down the legacy
+// branch.
+var dualFormatFixtures = []struct {
+	Prefix string
+	Type   int
+	Upper  bool
+	Hash   string
+	Str    string
+}{
+	{"bitcoincash", 0, true, "dcc7492d19b744afc6d9f50eaaaa55550695ca01", "QRWVWJFDRXM5FT7XM86SA242242SD9W2QYP3RWP84V"},
+}
+
+// dualFormatHashes returns the verified fixtures' hashes (for P2PKH/P2SH families).
+func dualFormatHashes() [][]byte {
+	var out [][]byte
+	for _, f := range dualFormatFixtures {
+		h := mc.UnHex(f.Hash)
+		s := ref.CashEncode(f.Prefix, f.Type, h)
+		if f.Upper {
+			s = strings.ToUpper(s)
+		}
+		if s != f.Str {
+			panic("dual-format fixture: the string is not the CashAddr encoding of the hash: " + f.Str)
+		}
+		if _, _, st := ref.B58CheckDecode(f.Str); st != "ok" {
+			panic("dual-format fixture: the string is not valid Base58Check: " + f.Str)
+		}
+		out = append(out, h)
+	}
+	return out
+}
